@@ -355,12 +355,12 @@ func (u userVec) Len() int            { return len(u.v) }
 
 // guarded is a strided Dense view inside a poisoned backing array.
 type guarded struct {
-	back    []float64
-	snap    []float64
-	stride  int
-	r, c    int
-	off     int
-	view    *mat.Dense
+	back   []float64
+	snap   []float64
+	stride int
+	r, c   int
+	off    int
+	view   *mat.Dense
 }
 
 // newGuarded returns an r×c view with row padding and margins filled with
